@@ -54,7 +54,7 @@ type Syncer struct {
 	client   *http.Client
 	peerInfo peer.AddrInfo
 	rootURL  url.URL
-	urls     []*url.URL
+	urls     []*url.URL // all addresses of the peer; the first is the one in use
 	sync     *Sync
 
 	// For legacy HTTP and external server support without IPNI path.
@@ -169,7 +169,7 @@ func (s *Sync) NewSyncer(peerInfo peer.AddrInfo) (*Syncer, error) {
 		client:   httpClient,
 		peerInfo: peerInfo,
 		rootURL:  *urls[0],
-		urls:     urls[1:],
+		urls:     urls,
 		sync:     s,
 
 		plainHTTP: plainHTTP,
@@ -309,6 +309,8 @@ func (s *Syncer) fetch(ctx context.Context, rsrc string, cb func(io.Reader) erro
 	// answered, so that a not-found or forbidden response from a publisher
 	// that does serve the IPNI path does not break later requests.
 	var tryNoPath bool
+	// failedAddrs counts the addresses that failed to serve this request.
+	var failedAddrs int
 nextURL:
 	rootURL := s.rootURL
 	if tryNoPath {
@@ -330,10 +332,13 @@ retry:
 
 	resp, err := s.client.Do(req)
 	if err != nil {
-		if len(s.urls) != 0 {
+		if failedAddrs < len(s.urls)-1 {
 			log.Errorw("Fetch request failed, will retry with next address", "err", err)
+			// Move the failed address to the end of the list, so that it is
+			// tried again, after the others, when a later request fails.
+			failedAddrs++
+			s.urls = append(s.urls[1:], s.urls[0])
 			s.rootURL = *s.urls[0]
-			s.urls = s.urls[1:]
 			if s.noPath {
 				s.rootURL.Path = strings.TrimSuffix(s.rootURL.Path, strings.Trim(IPNIPath, "/"))
 			}
